@@ -22,7 +22,7 @@ SEEDS = {
  "C06-2": ("C06", "patch2.diff", "demo2.rs", "emulated procfs resolver, handle backed by the host /proc, a symlink '-> 1' bind-mounted onto 'self'/'thread-self' inside the five-syscall window between verifying the component and reading its body (readlinkat by name instead of from the verified descriptor): open(self,'status') returns /proc/1/status", ["C06"], "needed a symlink bind source among the racing mounts and the 'object of the requested path' oracle"),
  "C07-1": ("C07", "patch1.diff", "demo1.rs", "emulated procfs resolver; '..' as the LAST component of a non-following open ('..', './..', '../'): a fast path for the final component sits in front of the '..' check and returns the procfs root / task directory", ["C07"], ""),
  "C07-2": ("C07", "patch2.diff", "demo2.rs", "emulated procfs resolver; trailing slash on a non-directory ('status/'): empty trailing component dropped, ENOTDIR lost", ["C07"], ""),
- "C08-2": ("C08", "patch2.diff", "demo2.rs", "caller is root of a USER NAMESPACE owning its mount+pid namespaces (rootless container) on a subset=pid/hidepid host /proc: an extra MOUNT_ATTR_NOATIME makes fsmount fail with EPERM there (locked atime), the caller silently degrades to clones of the masked host /proc", [], "NOT CAUGHT: the user-namespace-root caller is outside the enumerated privilege alphabet {real root, uid 1000 without capabilities}; on the repaired tree the recursion it used to trigger is bounded, what remains is 'existing but masked reported ENOENT' for that caller kind"),
+ "C08-2": ("C08", "patch2.diff", "demo2.rs", "caller is root of a USER NAMESPACE owning its mount+pid namespaces (rootless container) on a subset=pid/hidepid host /proc: an extra MOUNT_ATTR_NOATIME makes fsmount fail with EPERM there (locked atime), the caller silently degrades to clones of the masked host /proc", ["C08"], "first not caught (caller kind outside the privilege alphabet); caught after the user-namespace-root caller was added to C08's configurations"),
  "C08-1": ("C08", "patch1.diff", "demo1.rs", "privileged caller on a subset=pid / hidepid host /proc: new_unmasked() prefers a clone of the (masked) host /proc over a fresh procfs, so existing entries such as sys/kernel/ostype are reported ENOENT", ["C08"], "needed the 'existing but masked must not be ENOENT for privileged callers' oracle"),
  "C09-1": ("C09", "patch1.diff", "demo1.rs", "openat2 backend; reopen with flag combinations openat(2) silently accepts but openat2 refuses (O_PATH|O_RDWR, O_PATH|O_APPEND, unknown bits): final open switched to openat2", ["C09"], "needed sloppy flag combinations in the flag sets"),
  "C09-2": ("C09", "patch2.diff", "demo2.rs", "reopen from a thread with an unshared descriptor table (unshare(CLONE_FILES)) while the thread-group leader holds another file at the same number: /proc/self instead of /proc/thread-self", ["C09"], "needed the unshared-descriptor-table probe"),
